@@ -158,3 +158,133 @@ parse_node_for_arg = Contract(
     canaries=["result[2] is None", "result[0] == True"],
 )
 CONTRACTS.append(parse_node_for_arg)
+
+# ------------------------------------------------------------------------------------------- find_in_ast (C15 / C10 / C14: dotted lookup)
+def _loc(*names):
+    return ("list", list(names))
+
+
+def _ann(cls, attr):
+    return ("node", "ast.AnnAssign", {"target": ("node", "ast.Name", {"id": attr, "ctx": ("node", "ast.Store", {})}), "annotation": None, "value": None,
+                                      "simple": 1, "_location": _loc(cls, attr)})
+
+
+def _arg(fn_loc, name, idx):
+    return ("node", "ast.arg", {"arg": name, "annotation": None, "_location": _loc(*(fn_loc + [name])), "_idx": idx})
+
+
+def _fn(loc, arg_names):
+    return ("node", "ast.FunctionDef", {"name": loc[-1], "_location": _loc(*loc), "body": ("list", [("node", "ast.Pass", {})]),
+                                        "args": ("node", "ast.arguments", {"args": ("list", [_arg(loc, a, i) for i, a in enumerate(arg_names)]),
+                                                                           "defaults": ("list", []), "kwonlyargs": ("list", []), "kw_defaults": ("list", [])})})
+
+
+def _cls(name, members):
+    return ("node", "ast.ClassDef", {"name": name, "_location": _loc(name), "body": ("list", members)})
+
+
+def _mod(body):
+    return ("node", "ast.Module", {"body": ("list", body), "_location": _loc()})
+
+
+# names are distinct literals: the contract is about the *shape* of the module (what precedes / follows the addressed node),
+# which is what the lookup's cursor logic depends on; the bounded C15 sweep varies the names
+_FIA_MODULES = {
+    "class-attr": (_mod([_cls("A", [_ann("A", "x"), _ann("A", "y")]), _cls("B", [_ann("B", "z")])]), ["A", "y"], "node.body[0].body[1]"),
+    "class-attr,2nd-class": (_mod([_cls("A", [_ann("A", "x")]), _cls("B", [_ann("B", "z"), _ann("B", "w")])]), ["B", "w"], "node.body[1].body[1]"),
+    "method": (_mod([_cls("A", [_ann("A", "x"), _fn(["A", "m"], ["self", "p"])])]), ["A", "m"], "node.body[0].body[1]"),
+    "method,def-after": (_mod([_cls("A", [_ann("A", "x"), _fn(["A", "m"], ["self", "p"])]), _fn(["g"], ["q"])]), ["A", "m"], "node.body[0].body[1]"),
+    "attr,def-after": (_mod([_cls("A", [_ann("A", "x")]), _fn(["g"], ["q"])]), ["A", "x"], "node.body[0].body[0]"),
+    "class,def-after": (_mod([_cls("A", [_ann("A", "x")]), _fn(["g"], ["q"])]), ["A"], "node.body[0]"),
+    "function": (_mod([_cls("A", [_ann("A", "x")]), _fn(["g"], ["q"])]), ["g"], "node.body[1]"),
+    "function-arg": (_mod([_fn(["g"], ["q", "r"])]), ["g", "r"], "node.body[0].args.args[1]"),
+    "absent-attr": (_mod([_cls("A", [_ann("A", "x")]), _cls("B", [_ann("B", "z")])]), ["A", "nope"], None),
+    "absent-top": (_mod([_cls("A", [_ann("A", "x")])]), ["Nope"], None),
+}
+
+find_in_ast = Contract(
+    "doctrans.ast_utils:find_in_ast",
+    properties=["C15", "C10", "C14", "C09"],
+    note="annotated modules (every named node carries the _location annotate_ancestry gives it) of ten shapes: class attribute (first / second class), "
+         "method, the same with a module-level def AFTER the class, top-level class / function, function argument, absent paths. Names are distinct "
+         "literals (shared simple names and a def BEFORE the class are the listed finding F9 and are not part of this contract)",
+    cases=[Case(k, {"search": ("list", [("lit", x) for x in srch]), "node": mod}) for k, (mod, srch, _) in _FIA_MODULES.items()],
+    ensures=[Clause("FIA-%s" % k, ("result is %s" % want) if want else "result is None", when=[k],
+                    note="C15: the dotted location resolves to exactly the addressed node" if want else "C15: an absent path resolves to nothing")
+             for k, (_, _, want) in _FIA_MODULES.items()]
+    + [Clause("FIA-search-kept", "unchanged(search, old_search)", note="the caller's search list is not consumed")],
+    canaries=["result is None", "result is node"],
+)
+CONTRACTS.append(find_in_ast)
+
+# ------------------------------------------------------------------------------------------- annotate_ancestry (C15 / C11: locations)
+def _u_ann(attr):
+    return ("node", "ast.AnnAssign", {"target": ("node", "ast.Name", {"id": attr, "ctx": ("node", "ast.Store", {})}), "annotation": None, "value": None, "simple": 1})
+
+
+def _u_assign(name):
+    return ("node", "ast.Assign", {"targets": ("list", [("node", "ast.Name", {"id": name, "ctx": ("node", "ast.Store", {})})]),
+                                   "value": ("node", "ast.Constant", {"value": 5, "kind": None}), "type_comment": None})
+
+
+def _u_doc(text):
+    return ("node", "ast.Expr", {"value": ("node", "ast.Constant", {"value": text, "kind": None})})
+
+
+def _u_fn(name, arg_names, kwonly=()):
+    return ("node", "ast.FunctionDef", {"name": name, "body": ("list", [("node", "ast.Pass", {})]), "decorator_list": ("list", []), "returns": None,
+                                        "args": ("node", "ast.arguments", {"posonlyargs": ("list", []), "args": ("list", [("node", "ast.arg", {"arg": a, "annotation": None}) for a in arg_names]),
+                                                                           "vararg": None, "kwonlyargs": ("list", [("node", "ast.arg", {"arg": a, "annotation": None}) for a in kwonly]),
+                                                                           "kw_defaults": ("list", []), "kwarg": None, "defaults": ("list", [])})})
+
+
+def _u_cls(name, members):
+    return ("node", "ast.ClassDef", {"name": name, "bases": ("list", []), "keywords": ("list", []), "body": ("list", members), "decorator_list": ("list", [])})
+
+
+def _u_mod(body):
+    return ("node", "ast.Module", {"body": ("list", body), "type_ignores": ("list", [])})
+
+
+_AA_MODULES = {
+    # name -> (module, {path expression: expected _location}, [path expressions that must NOT be located at a one-name address of a definition])
+    "class+function": (_u_mod([_u_cls("A", [_u_ann("x"), _u_fn("m", ["self", "p"])]), _u_fn("g", ["q"], ["k"]), _u_assign("T"), _u_fn("h", ["s", "cl"])]),
+                       {"node": [], "node.body[0]": ["A"], "node.body[0].body[0]": ["A", "x"], "node.body[0].body[1]": ["A", "m"],
+                        "node.body[0].body[1].args.args[1]": ["A", "m", "p"], "node.body[1]": ["g"], "node.body[1].args.args[0]": ["g", "q"],
+                        "node.body[1].args.kwonlyargs[0]": ["g", "k"], "node.body[2]": ["T"]}, []),
+    "docstring-names-a-later-class": (_u_mod([_u_cls("E", [_u_doc("A")]), _u_cls("A", [_u_ann("x")])]),
+                                      {"node.body[0]": ["E"], "node.body[1]": ["A"], "node.body[1].body[0]": ["A", "x"]}, ["node.body[0].body[0].value"]),
+    "constant-before-any-definition": (_u_mod([_u_doc("A"), _u_cls("A", [_u_ann("x")])]), {"node.body[1]": ["A"]}, ["node.body[0].value"]),
+    "constant-in-list-names-a-class": (_u_mod([_u_cls("A", [_u_ann("x")]),
+                                               ("node", "ast.Assign", {"targets": ("list", [("node", "ast.Name", {"id": "__all__", "ctx": ("node", "ast.Store", {})})]),
+                                                                       "value": ("node", "ast.List", {"elts": ("list", [("node", "ast.Constant", {"value": "A", "kind": None})]),
+                                                                                                      "ctx": ("node", "ast.Load", {})}), "type_comment": None})]),
+                                       {"node.body[0]": ["A"], "node.body[1]": ["__all__"]}, ["node.body[1].value.elts[0]"]),
+}
+
+
+def _aa_clauses():
+    out = []
+    for k, (_, want, not_named) in _AA_MODULES.items():
+        for i, (pth, loc) in enumerate(want.items()):
+            out.append(Clause("AA-%s-%d" % (k, i), "%s._location == %r" % (pth, loc), when=[k],
+                              note="C15: every definition, attribute and argument is located at its dotted path"))
+        for i, pth in enumerate(not_named):
+            out.append(Clause("AA-%s-const%d" % (k, i), "(hasattr(%s, '_location') and len(%s._location) == 1) == False" % (pth, pth), when=[k],
+                              note="C11 / C15: a string constant is never located at the one-name address of a definition that happens to have its text as name"))
+    for pth, idx in (("node.body[0].body[1].args.args[0]", -1), ("node.body[0].body[1].args.args[1]", 0), ("node.body[1].args.args[0]", 0),
+                     ("node.body[1].args.kwonlyargs[0]", 0), ("node.body[3].args.args[0]", 0), ("node.body[3].args.args[1]", 1)):
+        out.append(Clause("AA-idx-%s" % pth.replace("node.", "").replace(".", "_"), "%s._idx == %d" % (pth, idx), when=["class+function"],
+                          note="C14 / C15: an argument's index counts from 0, not counting a receiver that is named exactly self or cls"))
+    return out
+
+
+annotate_ancestry = Contract(
+    "doctrans.ast_utils:annotate_ancestry",
+    properties=["C15", "C11", "C14"],
+    note="un-annotated modules of four shapes (names are distinct literals); ast.walk / iter_child_nodes are modelled on the node records in CPython's order",
+    cases=[Case(k, {"node": m}) for k, (m, _, _) in _AA_MODULES.items()],
+    ensures=_aa_clauses() + [Clause("AA-same", "result is node", note="annotates in place")],
+    canaries=["node.body[0]._location == []"],
+)
+CONTRACTS.append(annotate_ancestry)
